@@ -84,8 +84,15 @@ pub fn passwords() -> Vec<(&'static str, Vec<u8>)> {
 }
 
 /// Run f, catching panics; the panic message (if any) is returned as Err.
+thread_local! {
+    static GUARD_DEPTH: std::cell::Cell<u32> = const { std::cell::Cell::new(0) };
+}
+
 pub fn guarded<T>(f: impl FnOnce() -> T) -> Result<T, String> {
-    match catch_unwind(AssertUnwindSafe(f)) {
+    GUARD_DEPTH.with(|d| d.set(d.get() + 1));
+    let r = catch_unwind(AssertUnwindSafe(f));
+    GUARD_DEPTH.with(|d| d.set(d.get() - 1));
+    match r {
         Ok(v) => Ok(v),
         Err(e) => {
             let msg = if let Some(s) = e.downcast_ref::<&str>() {
@@ -102,7 +109,13 @@ pub fn guarded<T>(f: impl FnOnce() -> T) -> Result<T, String> {
 
 /// Silence the default panic printer (panics are caught and reported as violations).
 pub fn quiet_panics() {
-    std::panic::set_hook(Box::new(|_| {}));
+    std::panic::set_hook(Box::new(|info| {
+        // panics of the subject are caught by `guarded` and reported as violations; anything
+        // else is a bug in the machinery and must be visible
+        if GUARD_DEPTH.with(|d| d.get()) == 0 {
+            eprintln!("MACHINERY-ERROR: harness panic: {}", info);
+        }
+    }));
 }
 
 pub fn hx(b: &[u8]) -> String {
